@@ -52,6 +52,12 @@ type ctx struct {
 	perFile int
 	widen   bool
 	replay  string
+	caseType     string   // Coq type of a case (default "case")
+	mismatchExpr string   // Coq expression computing the mismatch index list (default "mismatches cases")
+	defs         map[string]string // Coq term -> name of a shared definition
+	defText      map[string]string // name -> "Definition name : ty := term."
+	fileDefs     []string          // names used by the cases of the current file, in first-use order
+	fileDefSet   map[string]bool
 }
 
 func (c *ctx) thorough() bool { return c.tier == "thorough" }
@@ -88,6 +94,28 @@ func (c *ctx) addCase(term, desc string) {
 	}
 }
 
+// shared returns the name of a definition holding term (defined once per case file that uses it)
+func (c *ctx) shared(prefix, ty, term string) string {
+	if c.defs == nil {
+		c.defs = map[string]string{}
+		c.defText = map[string]string{}
+	}
+	n, ok := c.defs[term]
+	if !ok {
+		n = fmt.Sprintf("%s%d", prefix, len(c.defs))
+		c.defs[term] = n
+		c.defText[n] = fmt.Sprintf("Definition %s : %s := %s.", n, ty, term)
+	}
+	if c.fileDefSet == nil {
+		c.fileDefSet = map[string]bool{}
+	}
+	if !c.fileDefSet[n] {
+		c.fileDefSet[n] = true
+		c.fileDefs = append(c.fileDefs, n)
+	}
+	return n
+}
+
 func (c *ctx) flush() {
 	if len(c.cases) == 0 {
 		return
@@ -96,9 +124,22 @@ func (c *ctx) flush() {
 	c.shard++
 	var sb strings.Builder
 	sb.WriteString(c.header)
-	sb.WriteString("Definition cases : list case := [\n")
+	ct, me := c.caseType, c.mismatchExpr
+	if ct == "" {
+		ct = "case"
+	}
+	if me == "" {
+		me = "mismatches cases"
+	}
+	for _, n := range c.fileDefs {
+		sb.WriteString(c.defText[n])
+		sb.WriteString("\n")
+	}
+	c.fileDefs = nil
+	c.fileDefSet = nil
+	sb.WriteString("Definition cases : list " + ct + " := [\n")
 	sb.WriteString(strings.Join(c.cases, ";\n"))
-	sb.WriteString("\n].\nDefinition M := Eval vm_compute in (mismatches cases).\nPrint M.\n")
+	sb.WriteString("\n].\nDefinition M := Eval vm_compute in (" + me + ").\nPrint M.\n")
 	if err := os.WriteFile(filepath.Join(c.out, name), []byte(sb.String()), 0o644); err != nil {
 		panic(err)
 	}
